@@ -49,8 +49,14 @@ func verifC15() {
 	}
 	files := map[string]string{}
 	files["log/log.go"] = "package log\n\nimport \"fmt\"\n\nfunc Note(s string) int {\n\tfmt.Println(s)\n\treturn 0\n}\n"
+	if verifCfg("c15_plain_layout_only", 0) == 1 {
+		verifAssume(layout == 0)
+	}
 	// import spelling: separate lines, one parenthesised group, a group of blank imports (side effects only), aliases
 	istyle := verifChoice("import_style", 4)
+	if verifCfg("c15_plain_layout_only", 0) == 1 {
+		verifAssume(istyle <= 1)
+	}
 	pkgSrc := func(name string, imports []string) (decls, inits string) {
 		var sb strings.Builder
 		sb.WriteString("package " + name + "\n\n")
